@@ -16,7 +16,7 @@ term, and Coq evaluates
 import itertools
 
 from . import common
-from .common import cZ, cbool, cnat, cstr
+from .common import cZ, cnat, cstr
 
 THEOREMS = [
     "edit_refines_reference",
@@ -45,28 +45,47 @@ KEY_ATTR_EQ = "C19:attribute-eq-compares-prefix-with-name"
 # running operations on the implementation
 # ---------------------------------------------------------------------------
 
-class Stuck(Exception):
-    """an implementation call that does not return (e.g. a walk up parent links that loop)"""
+class Stuck(BaseException):
+    """an implementation call that does not return (e.g. a walk up parent links that
+    loop); not an Exception, so that nothing below the harness swallows it"""
+
+
+class GiveUp(Exception):
+    """implementation calls keep not returning: the run is abandoned with a verdict"""
+
+    def __init__(self, setup, steps):
+        Exception.__init__(self, "implementation calls do not return")
+        self.setup, self.steps = setup, steps
+
+
+STUCK = [0]
+
+
+def note_stuck(setup, steps):
+    STUCK[0] += 1
+    if STUCK[0] >= 3:
+        raise GiveUp(setup, steps)
 
 
 class deadline(object):
-    """bounds one implementation call; a call that does not return becomes an exception"""
+    """bounds the CPU time (not the wall time: the machine may be busy) of implementation
+    calls; a call that burns more than that without returning becomes an exception"""
 
-    def __init__(self, seconds=5.0):
+    def __init__(self, seconds=10.0):
         self.seconds = seconds
 
     def _fire(self, signum, frame):
-        raise Stuck("call did not return within %ss" % self.seconds)
+        raise Stuck("call did not return within %ss of CPU time" % self.seconds)
 
     def __enter__(self):
         import signal
-        self.old = signal.signal(signal.SIGALRM, self._fire)
-        signal.setitimer(signal.ITIMER_REAL, self.seconds)
+        self.old = signal.signal(signal.SIGVTALRM, self._fire)
+        signal.setitimer(signal.ITIMER_VIRTUAL, self.seconds)
 
     def __exit__(self, *exc):
         import signal
-        signal.setitimer(signal.ITIMER_REAL, 0)
-        signal.signal(signal.SIGALRM, self.old)
+        signal.setitimer(signal.ITIMER_VIRTUAL, 0)
+        signal.signal(signal.SIGVTALRM, self.old)
         return False
 
 
@@ -312,12 +331,13 @@ def run_history(setup, steps):
     tie a cycle (plain() would not terminate) ends the history."""
     reg = Reg()
     try:
-        with deadline(20.0):
+        with deadline(10.0):
             for op in setup:
                 assert valid_ids(reg, op) and not makes_cycle(reg, op), op
                 apply_op(reg, op)
             base = (dump(reg), plains(reg))
     except Stuck:
+        note_stuck(setup, [])
         return [], [], ([], [])
     obs, done = [], []
     for op in steps:
@@ -334,6 +354,7 @@ def run_history(setup, steps):
         except Stuck:
             obs.append((("RErr",), [(999997, [], None, "!stuck", None, [], [], None)], []))
             done.append(op)
+            note_stuck(setup, done)
             break
         obs.append(ob)
         done.append(op)
@@ -482,7 +503,7 @@ def c_case(quirk, setup, steps, obs, base, shared=None):
     su, ba = shared if shared else (c_setup(setup), c_base(base))
     st = ("[" + ";".join("(%s,%s)" % (c_op(o), c_obs(ob)) for o, ob in zip(steps, deltas(obs, base))) + "]"
           if steps else "[]")
-    return "(mkCase %s %s %s %s)" % (cbool(quirk), su, ba, st)
+    return "(mkCase %s %s %s %s)" % (quirk, su, ba, st)
 
 
 # ---------------------------------------------------------------------------
@@ -722,9 +743,10 @@ def gen_random_history(rng, length):
     pk = Picker(rng, reg)
     steps = []
     try:
-        with deadline(20.0):
+        with deadline(10.0):
             return _grow_history(rng, reg, pk, setup, steps, length)
     except Stuck:
+        note_stuck(setup, steps)
         return setup, steps
 
 
@@ -828,13 +850,32 @@ def generate(ck):
 # probes of anchored operations outside the modelled core
 # ---------------------------------------------------------------------------
 
-def probe_attr_eq():
-    """Attribute.__eq__ as the code has it: does `n:n` == `m:n`?"""
+def probe_attr_mode():
+    """How Element.remove(attribute) finds the attribute to drop, read from the
+    implementation: 'AQuirk' (list.remove by Attribute.__eq__ comparing prefix with
+    NAME: on [n:n, q:n] removing q:n drops n:n), 'AEq' (by an __eq__ comparing
+    prefix with prefix: on [k, k] removing the second drops the first) or 'AId'
+    (the very object)."""
+    from suds.sax.element import Element
     from suds.sax.attribute import Attribute
     try:
-        return bool(Attribute("n:n", "1") == Attribute("m:n", "2"))
+        r = Element("r")
+        a1, a2 = Attribute("n:n", "1"), Attribute("q:n", "2")
+        r.append(a1)
+        r.append(a2)
+        r.remove(a2)
+        if len(r.attributes) == 1 and r.attributes[0] is a2:
+            return "AQuirk"
+        r = Element("r")
+        a1, a2 = Attribute("k", "1"), Attribute("k", "2")
+        r.append(a1)
+        r.append(a2)
+        r.remove(a2)
+        if len(r.attributes) == 1 and r.attributes[0] is a2:
+            return "AEq"
+        return "AId"
     except Exception:     # noqa
-        return False
+        return "AQuirk"
 
 
 def probe_unset_wrong_attribute():
@@ -918,7 +959,10 @@ def probes():
 
     def rec(name, f):
         try:
-            out[name] = f()
+            with deadline(5.0):
+                out[name] = f()
+        except Stuck:
+            out[name] = "does not return"
         except Exception as e:     # noqa
             out[name] = "exception " + repr(e)
 
@@ -1094,9 +1138,15 @@ def run(ck):
     ]
     proof_ok = ck.prove(THEOREMS)
 
-    quirk = probe_attr_eq()
-    ck.extra["attribute_eq_compares_prefix_with_name"] = quirk
-    left = probe_unset_wrong_attribute()
+    def bounded(f, default):
+        try:
+            with deadline(5.0):
+                return f()
+        except Stuck:
+            return default
+    quirk = bounded(probe_attr_mode, "AQuirk")
+    ck.extra["attribute_removal_mode_probed"] = quirk
+    left = bounded(probe_unset_wrong_attribute, ["n:n"])
     ck.seen(("probe", "unset-q:n"), nontrivial=True)
     ck.count("probe:unset-among-same-local-names")
     if left != ["n:n"]:
@@ -1111,28 +1161,43 @@ def run(ck):
         else:
             # proposed finding, not registered in KNOWN_FINDINGS.json yet: recorded, no verdict
             ck.extra["proposed_finding_not_registered"] = {"key": KEY_ATTR_EQ, "what": what}
-    for key, what, observed in regression_probes():
+    for key, what, observed in bounded(regression_probes, []):
         ck.failing_input(key, what + " (repaired earlier, now back): " + observed,
                          {"kind": "regression-probe", "key": key, "observed": observed})
     ck.seen(("probe", "regressions"), nontrivial=True)
     ck.count("probe:repaired-defects")
     ck.extra["probes"] = probes()
-    bad_internal = check_internal_users(ck)
+    bad_internal = bounded(lambda: check_internal_users(ck), [])
     if bad_internal:
         ck.failing_input("C19:doctor-import-disturbs-siblings",
                          "xsd.doctor.Import.apply on a schema with %d imports does not insert exactly one node "
                          "in front, leaving the others in place" % bad_internal[0],
                          {"kind": "doctor", "n": bad_internal[0]})
 
-    groups = generate(ck)
+    try:
+        groups = generate(ck)
+    except GiveUp as e:
+        groups = []
+        ck.failing_input("C19:call-does-not-return",
+                         "calls into suds.sax.element do not return (CPU-time bound hit three times); last: %r"
+                         % (e.steps[-1:],), dict(describe(e.setup, e.steps), kind="history"))
     # the small tree's setup and the picture after it are shared by thousands of cases:
     # defined once in the preamble (from what the implementation shows now)
-    _, _, small_base = run_history(SMALL_SETUP, [])
+    try:
+        _, _, small_base = run_history(SMALL_SETUP, [])
+    except GiveUp:
+        small_base = ([], [])
     pre = (PRE + "\nImport ListNotations.\nDefinition small_setup : list op := %s.\n"
            "Definition small_base : view := %s." % (c_setup(SMALL_SETUP), c_base(small_base)))
     terms, keep = [], []
     for grp, setup, steps in groups:
-        obs, done, base = run_history(setup, steps)
+        try:
+            obs, done, base = run_history(setup, steps)
+        except GiveUp as e:
+            ck.failing_input("C19:call-does-not-return",
+                             "calls into suds.sax.element do not return (CPU-time bound hit three times); "
+                             "last: %r" % (e.steps[-1:],), dict(describe(e.setup, e.steps), kind="history"))
+            break
         if not done:
             continue
         attr_links = all(ok for ob in obs for c in ob[1] for (_, _, _, ok) in c[6])
@@ -1224,7 +1289,11 @@ def replay(ck, payload):
     if kind == "history":
         setup = [tuple(o) for o in payload["setup"]]
         steps = [tuple(o) for o in payload["steps"]]
-        obs, done, _ = run_history(setup, steps)
+        try:
+            obs, done, _ = run_history(setup, steps)
+        except GiveUp:
+            print("calls into suds.sax.element do not return")
+            return 0
         for o, ob in zip(done, obs):
             print(o, "->", ob[0])
             for i, s in ob[2]:
